@@ -446,7 +446,7 @@ def _reg_shards(tier):
     k = range(len(ENGINES))
     if tier == "quick":
         return [{"n": 2, "engines": [i, j], "forget_always": True} for i in (0, 2, 3) for j in (0, 2, 3)]
-    return [{"n": 3, "engines": [i, j, l], "forget_always": True} for i in (0, 2, 3) for j in (0, 2, 3) for l in k]
+    return [{"n": 3, "engines": [i, j, l], "forget_always": True} for (i, j) in ((0, 0), (0, 2), (2, 2), (2, 3), (3, 2)) for l in (0, 2, 3)]
 
 
 OBLIGATIONS = [
@@ -480,7 +480,7 @@ OBLIGATIONS = [
                  "openpectus.aggregator.aggregator:Aggregator.has_registered_engine_id"],
         symbolic="per registration: secret string (<= 7 chars), engine_version string (<= len(__version__)+1 chars), ignore_version_error bit, connect / disconnect / forget event bits",
         bounds={"quick": "2 registrations by engines from a catalogue of 3 name pairs (two of them colliding on the unchanged tree); a disconnect always removes the engine data",
-                "thorough": "3 registrations (first two from 3 name pairs, third from 4); a disconnect always removes the engine data"},
+                "thorough": "3 registrations: first two from 5 ordered combinations of the 3 name pairs (same engine twice, unrelated engines, the colliding pair in both orders), third any of the 3; a disconnect always removes the engine data"},
         assumptions=["fake dispatcher: has_connected_engine_id answers from the harness' connection map, maintained like AggregatorDispatcher._engine_id_channel_map",
                      "from_engine.register_engine_data replaced by a recorder that stores the EngineData (no database, no publisher task)",
                      "create_analysis_input.cache_clear stubbed", "RegisterEngineMsg built with model_construct (symbolic secret / version)",
